@@ -65,6 +65,8 @@ THEOREMS = [
         "C02_model",
         "C02_model_norm",
         "C02_norm_idempotent",
+        "C02_annotations",
+        "C02_no_loss_names",
     )
 ]
 ASSUMPTIONS = [
@@ -73,9 +75,11 @@ ASSUMPTIONS = [
     "bytes payloads are opaque tokens; float fields are compared as IEEE bit patterns (signalling NaNs excluded)",
     "sparse_initializer, training_info, TensorProto.segment, opaque/map types, sparse attributes are outside the supported set",
     "quantization annotations are treated as a map keyed by tensor name (their order is not preserved by serde.py)",
-    "WFproto (theorem domain) is narrower than the generator's valid stream: models below IR version 10 that carry "
-    "function value info in the experimental 'domain::name/value' encoding, and graphs whose output is a (non-input) "
-    "initializer, are covered by correspondence + oracle only (histogram keys wf[valid]=...)",
+    "WFproto (theorem domain) vs the generator's valid stream: see histogram keys wf[valid]=...; outside WFproto "
+    "(correspondence + oracle only) remain IR<10 models in which a value of the main graph itself has a name of the "
+    "experimental 'domain::name/value' form, or whose functions carry their own value_info",
+    "experimental IR<10 entries whose name does not split back (first '::', then first '/') into an existing "
+    "function and one of its values address nothing and count as unreferenced value-info (D106 semantics)",
     "a node input that resolves to a different Value object with the same name (scope shadowing order) is not "
     "observable through to_proto; object identity after deserialization belongs to C03/C17",
 ]
@@ -512,7 +516,13 @@ def _norm_model(m):
             for n in f.node:
                 names |= {o for o in n.output if o}
             for v in names:
-                extra.add(f"{f.domain}::{f.name}/{v}")
+                # the encoding is only defined for names that split back at the first "::" / first "/"
+                # (D106): other entries address nothing and count as unreferenced
+                full = f"{f.domain}::{f.name}/{v}"
+                d, sep1, rest = full.partition("::")
+                n, sep2, vn = rest.partition("/")
+                if sep1 and sep2 and (d, n, vn) == (f.domain, f.name, v):
+                    extra.add(full)
     _norm_graph(m.graph, extra)
     for f in m.functions:
         _norm_function(f)
@@ -993,6 +1003,31 @@ class Gen:
         for i in range(nnodes):
             self.node(f.node.add(), [declared], node_outs[i], 0, True, ir_version)
         f.output.extend(self.r.sample(declared, min(len(declared), self.r.randrange(3))))
+        if ir_version < 10 and self.r.random() < 0.3:
+            # value names containing the separators of the experimental encoding ("/block/Add_output_0")
+            ren = {d: self.r.choice(["/blk/", "x::", "a/b::c/"]) + d for d in declared if self.r.random() < 0.5}
+            f.input[:] = [ren.get(x, x) for x in f.input]
+            f.output[:] = [ren.get(x, x) for x in f.output]
+
+            def rename_nodes(nodes):
+                # also inside subgraphs: they capture the function's values (generated names are
+                # globally fresh, so no subgraph declares one of the renamed names itself)
+                for n in nodes:
+                    n.input[:] = [ren.get(x, x) for x in n.input]
+                    n.output[:] = [ren.get(x, x) for x in n.output]
+                    for c in n.device_configurations:
+                        for sp in c.sharding_spec:
+                            sp.tensor_name = ren.get(sp.tensor_name, sp.tensor_name)
+                    for a in n.attribute:
+                        for sub in ([a.g] if a.HasField("g") else []) + list(a.graphs):
+                            rename_nodes(sub.node)
+                            for v in list(sub.output) + list(sub.input) + list(sub.value_info) + list(sub.initializer):
+                                v.name = ren.get(v.name, v.name)
+                            for q in sub.quantization_annotation:
+                                q.tensor_name = ren.get(q.tensor_name, q.tensor_name)
+
+            rename_nodes(f.node)
+            declared = [ren.get(x, x) for x in declared]
         vis = [c for c in declared if self.r.random() < 0.5]
         self.r.shuffle(vis)
         return vis  # names that get value info (placed by the caller according to the IR version)
@@ -1022,7 +1057,8 @@ class Gen:
                 c.device.extend(["CPU", "CUDA:0", "é"][: self.r.randrange(4)])
         self.graph(m.graph, [], 0, ir_version)
         idents = self.r.sample([("custom", "f", ""), ("custom", "f", "ov1"), ("custom", "f", "ov2"), ("", "g", ""),
-                                ("pkg.torch", "h", ""), ("ai.onnx", "k", "")], self.r.choice([0, 0, 1, 2, 3]))
+                                ("pkg.torch", "h", ""), ("ai.onnx", "k", ""), ("a::b", "n", ""), ("pkg", "m/n", "")],
+                               self.r.choice([0, 0, 1, 2, 3]))
         for ident in idents:
             f = m.functions.add()
             vis = self.function(f, ident, ir_version)
@@ -1031,7 +1067,10 @@ class Gen:
                     self.vi(f.value_info.add(), nm)
             elif not ident[2] and self.r.random() < 0.7:
                 for nm in vis:
-                    self.vi(m.graph.value_info.add(), f"{ident[0]}::{ident[1]}/{nm}", typed=True)
+                    self.vi(m.graph.value_info.add(), f"{ident[0]}::{ident[1]}/{nm}", typed=None)
+                if self.r.random() < 0.2:  # entries that address nothing
+                    self.vi(m.graph.value_info.add(), f"{ident[0]}::{ident[1]}/no_such_value")
+                    self.vi(m.graph.value_info.add(), "no::such_function/x")
         return ir_version
 
 
@@ -1106,7 +1145,7 @@ def mutate(rng, kind, p):
     gs = list(graphs_of(p))
     ns = list(nodes_of(p))
     for _ in range(rng.choice([1, 1, 2, 3])):
-        c = rng.randrange(16)
+        c = rng.randrange(17)
         if c == 0 and ns:
             n = rng.choice(ns)
             n.input.append("dangling_" + str(rng.randrange(3)))
@@ -1225,6 +1264,18 @@ def mutate(rng, kind, p):
             if fs:
                 rng.choice(fs).output.append("not_declared")
                 what.append("function-output-undeclared")
+        elif c == 16 and isinstance(p, ModelProto) and len(p.functions):
+            # function value_info below IR 10 (it is moved into the main graph, when representable)
+            if p.ir_version >= 10:
+                p.ir_version = rng.choice([7, 8, 9])
+            f = rng.choice(list(p.functions))
+            names = list(f.input) + [o for n in f.node for o in n.output if o]
+            for nm in names[:3]:
+                v = f.value_info.add()
+                v.name = nm
+                v.type.tensor_type.elem_type = 1
+                v.doc_string = "fn"
+            what.append("ir9-function-value-info")
         elif c == 15 and gs:
             g = rng.choice(gs)
             g.metadata_props.add(key="dup", value="1")
